@@ -2020,7 +2020,10 @@ def call_method(interp, em: ExtMethod, args: list, kwargs: dict) -> Any:
     if k == "exc":
         return em.recv if em.name == "with_traceback" else None
     if k == "cached_fn":
-        return None
+        if em.name == "cache_clear":
+            interp.__dict__.setdefault("_fn_cache", {}).pop(em.recv.info.qualname, None)
+            return None
+        return fresh_unknown("cache_info()")
     if k == "logger":
         interp.emit("log", method=em.name)
         return None
